@@ -565,3 +565,9 @@ func anyOfStr(ps ...func(string) bool) func(string) bool {
 		return false
 	}
 }
+
+// mpQuiet runs a must-pass query without recording an obligation.
+func mpQuiet(P *Program, fn *ssa.Function, acc Accept, q *MustPass) mpResult {
+	q.P = P
+	return q.Check(fn, acc)
+}
